@@ -22,7 +22,7 @@ Direct oracle (the property on the implementation alone): the view can be built 
 every id whose synchronisation had returned has a row; every row is a complete image whose costs are
 the objective's value for its vector (recomputed here), one row per id.
 
-Two further streams (added after the red team):
+Further streams (added after the red-team rounds):
 * transient failures: the scenario's objective raises RuntimeError / TimeoutError at scripted global call
   numbers (1..4 failures in a row, on the first / middle / last design, serial and 2 workers); Job.evaluate
   draws a replacement vector (reported by a wrapper of VectorAndNumbers.gen_vector -> `SFail i v`) and tries
@@ -71,9 +71,11 @@ THEOREMS = {"Artap.Props.C11": [
 RUN_MODULES = ["Run.C11Run"]
 AXIOMS_OK = []
 # second tie to the code (tools/py2coq.py + front-end tools/py2coq_eff.py + coq/theories/GenProofs): on every run the source of
-# Job.evaluate (sync_individual after state := EVALUATED on the successful attempt only, nothing on a failed one) and of
-# SqliteDataStore.sync_individual / sync_all (execute, then commit, on the connection opened at entry; the retry on
-# sqlite3.OperationalError) is translated and proved equal to Model/Job.v job_evaluate / the step lists of Model/Crash.v
+# Job.evaluate (sync_individual after state := EVALUATED on the successful attempt only, nothing on a failed one) is translated and
+# proved equal to Model/Job.v job_evaluate (five attempts included; NOT to the step lists of Model/Crash.v: no Coq statement links
+# Model/Job.v to Crash.job / job_retry, that tie is the correspondence), and the source of SqliteDataStore.sync_individual / sync_all
+# (execute, then commit, on the connection opened at entry; the retry on sqlite3.OperationalError) is translated and proved to have
+# the shape of Crash.resync / Crash.sync_all_steps when every statement is accepted (GenProofs/StoreEquiv.v)
 from harness.core import translated_specs
 TRANSLATED = translated_specs("SignedCostsGen", "JobGen", "StoreGen")
 TRUSTED = [
@@ -92,7 +94,8 @@ TRUSTED = [
     "a write attempt refused by SQLite because another process holds a lock ('database is locked') is no step of the model: the "
     "synchronisation retries until the write goes through (datastore.py: sync_individual calls itself again on OperationalError), as "
     "Model/Parallel.v XRefused says for C07; exercised with a real second process holding SHARED / RESERVED / EXCLUSIVE locks for 1..25 "
-    "busy timeouts (busy timeout shortened from 5 s to 20 ms harness-side, which only scales the waiting), the lock is eventually released",
+    "busy timeouts (the connect proxy shortens artap's busy timeout of 5 s harness-side: to 1 s in every scenario, to 20 ms in the "
+    "external-lock scenarios, which only scales the waiting), the lock is eventually released",
 ]
 ASSUMPTIONS = [
     "crash = death of the writing process (os._exit / SIGKILL), not power loss or a torn write of the file system",
@@ -1129,7 +1132,8 @@ def run(ctx):
                 "objective (1-4 in a row; crash points inside the retries); directed kills between execute and commit (and SIGKILL inside the "
                 "commit) of rows / transactions larger than the page cache; runs in which ANOTHER PROCESS holds a read / write / exclusive "
                 "lock on the file during the synchronisation of a chosen individual until the writer has been refused 1..12 times in a row, "
-                "killed at every point before / inside / after that synchronisation; a case is non-trivial "
+                "killed at every point before / inside / after that synchronisation; chains of killed / completed sessions continued into one "
+                "file and runs whose problem description changes after the store was created, killed at every point; a case is non-trivial "
                 "when the writer was killed; distinct = distinct (scenario, crash point, number of reported events, row ids found)")
 
 
@@ -1151,5 +1155,7 @@ LEVEL_NOTE = ("proof, PARTIAL: the theorems are about the artap-level protocol (
               "vanish - are exercised by the kill runs (also with transactions that spill to the database file before the commit), NOT "
               "modelled or proved; power loss is outside (synchronous = 0). The order `legal` is proved for interleavings of job lists with "
               "failed attempts + final sync_all and checked (not proved) on the reported traces of NSGA-II / eps-MOEA, whose later "
-              "re-synchronisations and copies the general theorem covers. The code's limit of five attempts is not modelled (the model "
-              "allows any number of failed attempts). Correspondence is sampled.")
+              "re-synchronisations and copies the general theorem covers. The code's limit of five attempts is not in the crash model "
+              "(Model/Crash.v allows any number of failed attempts); it is in Model/Job.v job_evaluate, to which the translated Job.evaluate is "
+              "proved equal. PARTIAL means: the runtime (SQLite journal / file system / OS) is not modelled; all 9 theorems are full over the "
+              "model (there is no `_partial` theorem and no C11_full_statement). Correspondence is sampled.")
